@@ -698,7 +698,7 @@ func c22Scenarios(r *vrt.R, th bool) []mcx.Scenario {
 			a.Kind, b2.Kind = c22KBuffered, c22KWrite
 			rb := vrt.Pick(r, 0, 2)
 			if ci == 0 {
-				rb = vrt.Pick(r, 1, 3)
+				rb = vrt.Pick(r, 1, 2)
 			}
 			add(fmt.Sprintf("handler/%s/buffered+buffered-write/cap1", name), rb, c22HandlerMixBody(1, []c22hspec{a, b2}, true), c22HandlerLoadCheck)
 		}
